@@ -215,6 +215,9 @@ func defaultXCfg(rt *rapid.T, avoid map[string]bool) (dsl.GenCfg, int, dsl.ValCf
 	if rapid.IntRange(0, 3).Draw(rt, "len_and_sum") == 0 {
 		cfg.WantLen, cfg.WantSum, cfg.WantMatch = true, true, rapid.Bool().Draw(rt, "las_match")
 	}
+	// identifier shapes (snake_case, lowerCamel, ACRONYMS, digits) for packets and fields: the
+	// spelling a generator derives for a name must be the same at every site
+	cfg.Shapes = !avoid["shapes"] && rapid.IntRange(0, 3).Draw(rt, "shapes") == 0
 	return cfg, 4, dsl.ValCfg{MaxList: 3, LongList: pbt.Thorough()}, false
 }
 
